@@ -42,7 +42,7 @@ def scenario (kind : String) (n m : Nat) (sawSucceeded : Bool) : Option (Nat × 
     if sawSucceeded then
       some (let s := run keepSucceeded {} (pre ++ [.rTick, .cmdExit true, .cancel, .rFinal, .dCancelWrite]); (s.state, s.size))
     else none   -- the cancel came before the command's exit (timing): any final record of a killed unit
-  | "inproc" | "stuckdir" => some (2, 0)
+  | "inproc" | "stuckdir" | "racedir" => some (2, 0)
   | _ => none
 
 def handle (op : String) (a r : Json) : Except String Reply := do
